@@ -190,7 +190,13 @@ def source(prog: list, lay: Layout = CANON) -> str:
     return "\n".join(render(prog, lay).lines) + "\n"
 
 
-def _emit(r: Rendered, lay: Layout, depth: int, text: str, st: dict | None = None, code: bool = True) -> None:
+def _emit(r: Rendered, lay: Layout, depth: int, text: str, st: dict | None = None, code: bool = True, plain: bool = False) -> None:
+    if plain:
+        # inside an argument list: not a place "between statements", so no comment or blank line is put here
+        if st is not None:
+            r.stmt_line[id(st)] = len(r.lines)
+        r.lines.append(_ind(lay, depth) + text)
+        return
     if lay.on("blank", 0.2):
         r.lines.append("")
     if lay.on("comments", 0.15):
@@ -262,12 +268,12 @@ def _render_stmt(st: dict, lay: Layout, r: Rendered, depth: int) -> None:
             for i, a in enumerate(st["as"]):
                 last = i == len(st["as"]) - 1
                 if isinstance(a, dict):
-                    _emit(r, lay, depth + 1, "{", code=False)
+                    _emit(r, lay, depth + 1, "{", code=False, plain=True)
                     _render_list(a["blk"], lay, r, depth + 2)
-                    _emit(r, lay, depth + 1, "}" + ("" if last else ","), code=False)
+                    _emit(r, lay, depth + 1, "}" + ("" if last else ","), code=False, plain=True)
                 else:
-                    _emit(r, lay, depth + 1, render_expr(a, lay) + ("" if last else ","), code=False)
-            _emit(r, lay, depth, ")", code=False)
+                    _emit(r, lay, depth + 1, render_expr(a, lay) + ("" if last else ","), code=False, plain=True)
+            _emit(r, lay, depth, ")", code=False, plain=True)
         else:
             _emit(r, lay, depth, f"{st['n']}({_args(st['as'], lay)})", st)
     elif k == "splice":
